@@ -47,7 +47,10 @@ def func_ast(f):
     code = f.__code__
     k = (code.co_filename, code.co_firstlineno, code.co_name)
     if k not in _src_cache:
-        src = textwrap.dedent(inspect.getsource(f))
+        try:
+            src = textwrap.dedent(inspect.getsource(f))
+        except (OSError, TypeError):
+            src = _frozen_source(f)
         tree = ast.parse(src)
         node = tree.body[0]
         if isinstance(node, ast.Expr) or not isinstance(node, (ast.FunctionDef, ast.Lambda)):
@@ -64,6 +67,29 @@ def func_ast(f):
                 raise OSError("cannot isolate lambda source")
         _src_cache[k] = (node, hashlib.sha256(src.encode()).hexdigest()[:16])
     return _src_cache[k][0]
+
+
+_file_trees = {}
+
+
+def _frozen_source(f):
+    """source of a function from a frozen stdlib module (co_filename '<frozen x>')"""
+    import sys
+
+    mod = sys.modules.get(f.__module__)
+    path = getattr(mod, "__file__", None)
+    if not path or not path.endswith(".py"):
+        raise OSError("no source")
+    if path not in _file_trees:
+        text = open(path).read()
+        _file_trees[path] = (text, ast.parse(text))
+    text, tree = _file_trees[path]
+    for node in ast.walk(tree):
+        if isinstance(node, ast.FunctionDef) and node.name == f.__name__:
+            first = min([node.lineno] + [d.lineno for d in node.decorator_list])
+            if first == f.__code__.co_firstlineno:
+                return textwrap.dedent(ast.get_source_segment(text, node, padded=True))
+    raise OSError("function not found in module file")
 
 
 def is_sym(x):
@@ -462,7 +488,58 @@ def p_divmod(I, a, b):
     return (a // b, a % b)
 
 
+def p_map(I, f, *its):
+    return iter([I.call(f, args) for args in zip(*[I.iterate(it) for it in its])])
+
+
+def p_filter(I, f, it):
+    if f is None:
+        return iter([x for x in I.iterate(it) if I.truth(x)])
+    return iter([x for x in I.iterate(it) if I.truth(I.call(f, (x,)))])
+
+
+def p_enumerate(I, it, start=0):
+    return enumerate(I.iterate(it), start)
+
+
+def p_zip(I, *its, **kw):
+    return zip(*[I.iterate(it) for it in its], **kw)
+
+
+def p_reversed(I, it):
+    f = I.dunder(it, "__reversed__")
+    if f is not None:
+        return I.call(f, (it,))
+    if isinstance(it, SSeq):
+        return iter(list(it)[::-1])
+    return reversed(it)
+
+
+def p_range(I, *a):
+    return range(*[ctx().concretize(zi(x)) if isinstance(x, (SInt, SBool)) else x for x in a])
+
+
+def p_slice(I, *a):
+    return slice(*a)
+
+
+def p_set(I, it=()):
+    items = list(I.iterate(it))
+    if has_sym(items):
+        raise Unsupported("set() of symbolic members")
+    return set(items)
+
+
+def p_frozenset(I, it=()):
+    items = list(I.iterate(it))
+    if has_sym(items):
+        raise Unsupported("frozenset() of symbolic members")
+    return frozenset(items)
+
+
 PRIMS = {
+    map: p_map, filter: p_filter, enumerate: p_enumerate, zip: p_zip, reversed: p_reversed, range: p_range,
+    slice: p_slice, set: p_set, frozenset: p_frozenset,
     len: p_len, bytes: p_bytes, bytearray: p_bytearray, isinstance: p_isinstance,
     min: p_min, max: p_max, bool: p_bool, str: p_str, int: p_int, float: p_float, abs: p_abs,
     sum: p_sum, ord: p_ord, chr: p_chr, repr: p_repr, hash: p_hash, any: p_any, all: p_all,
